@@ -505,35 +505,36 @@ structure Config where
 def ok (w : World) : StepResult := ⟨w, none⟩
 def fail (w : World) (e : Err) : StepResult := ⟨w, some e⟩
 
+/-- fill the base (or internal client) bucket of the player entity from the packet's stream -/
+def fillPlayer (ent : Entity) (value : Bytes) (base withProps : Bool) : Entity × Option Err :=
+  if !withProps then (ent, none)
+  else if base then
+    let r := setInternal ent.view.baseProps ent.base value
+    ({ ent with base := r.1 }, r.2)
+  else
+    let r := setInternal ent.view.clientPropsInternal ent.client value
+    ({ ent with client := r.1 }, r.2)
+
+def finishPlayer (w : World) (id : Int) (setPlayer : Bool) : World :=
+  if setPlayer then { w with playerId := some id } else w
+
 /-- player creation through one of the internal lists -/
 def playerCreate (cfg : Config) (w : World) (id : Int) (value : Bytes) (base : Bool) (setPlayer : Bool)
     (withProps : Bool) : StepResult :=
-  let existing := w.get? id
-  let entR : R Entity := match existing with
-    | some e => .ok e
-    | none => do
-      let d ← cfg.defs.byName "Avatar"
-      pure (Entity.new cfg.masks id d)
-  match entR with
-  | .error e => fail w e
-  | .ok ent =>
-    let (ent', err) :=
-      if !withProps then (ent, none)
-      else if base then
-        let (b, er) := setInternal ent.view.baseProps ent.base value
-        ({ ent with base := b }, er)
-      else
-        let (b, er) := setInternal ent.view.clientPropsInternal ent.client value
-        ({ ent with client := b }, er)
-    match err with
-    | some e =>
-      -- an already known entity was mutated in place before the failure
-      match existing with
-      | some _ => fail (w.put ent') e
-      | none => fail w e
-    | none =>
-      let w' := w.put ent'
-      ok (if setPlayer then { w' with playerId := some id } else w')
+  match w.get? id with
+  | some ent =>
+    let r := fillPlayer ent value base withProps
+    match r.2 with
+    | some e => fail (w.put r.1) e          -- a known entity was mutated in place before the failure
+    | none => ok (finishPlayer (w.put r.1) id setPlayer)
+  | none =>
+    match cfg.defs.byName "Avatar" with
+    | .error e => fail w e
+    | .ok d =>
+      let r := fillPlayer (Entity.new cfg.masks id d) value base withProps
+      match r.2 with
+      | some e => fail w e                  -- the new entity was never registered
+      | none => ok (finishPlayer (w.put r.1) id setPlayer)
 
 /-- the `(idx, value)*` loop of EntityCreate -/
 def createLoop (reg : Registry) : Nat → Entity → Bytes → List LogEntry → Entity × Bytes × List LogEntry × Option Err
@@ -547,6 +548,104 @@ def createLoop (reg : Registry) : Nat → Entity → Bytes → List LogEntry →
       | some er => (e', rest', log ++ l, some er)
       | none => createLoop reg n e' rest' (log ++ l)
 
+def stepEntityCreate (cfg : Config) (w : World) (id : Int) (ty : Int) (state : Bytes) : StepResult :=
+  match cfg.defs.byIndex ty with
+  | .error e => fail w e
+  | .ok d =>
+    match state with
+    | [] => fail w .short
+    | c :: rest =>
+      let r := createLoop cfg.reg c.toNat (Entity.new cfg.masks id d) rest []
+      let w1 := { w with log := w.log ++ r.2.2.1 }
+      match r.2.2.2 with
+      | some e => fail w1 e
+      | none => if r.2.1.isEmpty then ok (w1.put r.1) else fail w1 .assertion
+
+def stepEntityProperty (cfg : Config) (w : World) (id : Int) (idx : Nat) (data : Bytes) : StepResult :=
+  match w.get? id with
+  | none => fail w .unknownEntity
+  | some e =>
+    let r := setClientProperty cfg.reg e idx data
+    let w0 := w.put r.1
+    let w1 := { w0 with log := w.log ++ r.2.2.1 }
+    match r.2.2.2 with
+    | some er => fail w1 er
+    | none => ok w1
+
+/-- `Entity.call_client_method(exposed_index, payload)`: the callbacks invoked and the
+exception, if any. Nobody subscribed: nothing is decoded, nothing happens. -/
+def methodCall (reg : Registry) (e : Entity) (idx : Nat) (data : Bytes) : List LogEntry × Option Err :=
+  match e.view.methods[idx]? with
+  | none => ([], some .badIndex)
+  | some m =>
+    let key := e.view.name ++ "_" ++ m.name
+    match (dictGet? reg.methods key).getD [] with
+    | [] => ([], none)
+    | subs =>
+      match decodeArgs m.header (m.args.map (·.2)) data with
+      | .error er => ([], some er)
+      | .ok (vals, _) =>
+        let named := (m.args.zip vals).filterMap fun ((n, _), v) => n.map (fun s => (s, v))
+        let pos := (m.args.zip vals).filterMap fun ((n, _), v) => if n.isNone then some v else none
+        -- keyword arguments form a dict: a repeated name keeps the last value
+        let kwargs := named.foldl (fun acc kv => dictSet acc kv.1 kv.2) []
+        let r := runSubs subs (fun t => .method key t e.id pos kwargs)
+        (r.1, if r.2 then some .type else none)
+
+def stepEntityMethod (cfg : Config) (w : World) (id : Int) (idx : Nat) (data : Bytes) : StepResult :=
+  match w.get? id with
+  | none => fail w .unknownEntity
+  | some e =>
+    let r := methodCall cfg.reg e idx data
+    ⟨{ w with log := w.log ++ r.1 }, r.2⟩
+
+def stepNested (cfg : Config) (w : World) (id : Int) (isSlice : Bool) (payload : Bytes) : StepResult :=
+  match w.get? id with
+  | none => fail w .unknownEntity
+  | some e =>
+    match applyNested cfg.reg e isSlice payload with
+    | .error (.err er) => fail w er
+    | .error .hang => fail w .other
+    | .ok (e', l, raised) =>
+      let w0 := w.put e'
+      let w1 := { w0 with log := w.log ++ l }
+      if raised then fail w1 .type else ok w1
+
+def stepPosition (w : World) (id : Int) (pose : Pose) : StepResult :=
+  match w.get? id with
+  | none => fail w .unknownEntity
+  | some e => ok (w.put (setPose e pose))
+
+/-- copy the pose of `master` to `slave` through the property getters: a volatile the
+master's type does not declare is a RuntimeError, after the earlier ones were copied -/
+def copyPose (master slave : Entity) : Entity × Option Err :=
+  match dictGet? master.volatile "position", dictGet? master.volatile "yaw",
+        dictGet? master.volatile "pitch", dictGet? master.volatile "roll" with
+  | some p, some y, some pt, some r =>
+    (slave.withVol [("position", p), ("yaw", y), ("pitch", pt), ("roll", r)], none)
+  | some p, some y, some pt, none => (slave.withVol [("position", p), ("yaw", y), ("pitch", pt)], some .other)
+  | some p, some y, none, _ => (slave.withVol [("position", p), ("yaw", y)], some .other)
+  | some p, none, _, _ => (slave.withVol [("position", p)], some .other)
+  | none, _, _, _ => (slave, some .other)
+
+def stepPlayerPosition (w : World) (id1 id2 : Int) (pose : Pose) : StepResult :=
+  if id2 != 0 then
+    match w.get? id2, w.get? id1 with
+    | some master, some slave =>
+      let r := copyPose master slave
+      match r.2 with
+      | none => ok (w.put r.1)
+      | some e => fail (w.put r.1) e
+    | _, _ => ok w                                   -- KeyError swallowed
+  else if id1 != 0 then
+    match w.get? id1 with
+    | some e => ok (w.put (setPose e pose))
+    | none => ok w                                   -- KeyError swallowed
+  else ok w
+
+def stepLookup (w : World) (id : Int) : StepResult :=
+  match w.get? id with | some _ => ok w | none => fail w .unknownEntity
+
 def step (cfg : Config) (w : World) (p : Packet) : StepResult :=
   match cfg.dialect.game, p with
   | .wowp, .basePlayerCreate id _ value => playerCreate cfg w id value true true true
@@ -558,88 +657,15 @@ def step (cfg : Config) (w : World) (p : Packet) : StepResult :=
   | _, .version _ => ok w
   | _, .entityControl _ _ => ok w
   | _, .battleStats _ => ok w
-  | _, .entityEnter id => match w.get? id with | some _ => ok w | none => fail w .unknownEntity
-  | _, .entityLeave id => match w.get? id with | some _ => ok w | none => fail w .unknownEntity
-  | _, .entityCreate id ty state =>
-    match cfg.defs.byIndex ty with
-    | .error e => fail w e
-    | .ok d =>
-      let ent := Entity.new cfg.masks id d
-      match state with
-      | [] => fail w .short
-      | c :: rest =>
-        let (ent', left, l, err) := createLoop cfg.reg c.toNat ent rest []
-        let w1 := { w with log := w.log ++ l }
-        match err with
-        | some e => fail w1 e
-        | none => if left.isEmpty then ok (w1.put ent') else fail w1 .assertion
-  | _, .entityProperty id idx data =>
-    match w.get? id with
-    | none => fail w .unknownEntity
-    | some e =>
-      let (e', _, l, err) := setClientProperty cfg.reg e idx data
-      let w0 := w.put e'
-      let w1 := { w0 with log := w.log ++ l }
-      match err with
-      | some er => fail w1 er
-      | none => ok w1
-  | _, .entityMethod id idx data =>
-    match w.get? id with
-    | none => fail w .unknownEntity
-    | some e =>
-      match e.view.methods[idx]? with
-      | none => fail w .badIndex
-      | some m =>
-        let key := e.view.name ++ "_" ++ m.name
-        match (dictGet? cfg.reg.methods key).getD [] with
-        | [] => ok w                                  -- nobody subscribed: not decoded
-        | subs =>
-          match decodeArgs m.header (m.args.map (·.2)) data with
-          | .error er => fail w er
-          | .ok (vals, _) =>
-            let named := (m.args.zip vals).filterMap fun ((n, _), v) => n.map (fun s => (s, v))
-            let pos := (m.args.zip vals).filterMap fun ((n, _), v) => if n.isNone then some v else none
-            -- keyword arguments form a dict: a repeated name keeps the last value
-            let kwargs := named.foldl (fun acc kv => dictSet acc kv.1 kv.2) []
-            let (l, raised) := runSubs subs (fun t => .method key t e.id pos kwargs)
-            let w1 := { w with log := w.log ++ l }
-            if raised then fail w1 .type else ok w1
-  | _, .nested id isSlice payload =>
-    match w.get? id with
-    | none => fail w .unknownEntity
-    | some e =>
-      match applyNested cfg.reg e isSlice payload with
-      | .error (.err er) => fail w er
-      | .error .hang => fail w .other
-      | .ok (e', l, raised) =>
-        let w0 := w.put e'
-        let w1 := { w0 with log := w.log ++ l }
-        if raised then fail w1 .type else ok w1
-  | _, .position id pose =>
-    match w.get? id with
-    | none => fail w .unknownEntity
-    | some e => ok (w.put (setPose e pose))
+  | _, .entityEnter id => stepLookup w id
+  | _, .entityLeave id => stepLookup w id
+  | _, .entityCreate id ty state => stepEntityCreate cfg w id ty state
+  | _, .entityProperty id idx data => stepEntityProperty cfg w id idx data
+  | _, .entityMethod id idx data => stepEntityMethod cfg w id idx data
+  | _, .nested id isSlice payload => stepNested cfg w id isSlice payload
+  | _, .position id pose => stepPosition w id pose
   | .wot, .playerPosition _ _ _ => ok w
-  | _, .playerPosition id1 id2 pose =>
-    if id2 != 0 then
-      match w.get? id2, w.get? id1 with
-      | some master, some slave =>
-        -- copying goes through the property getters: a missing volatile is a RuntimeError
-        match dictGet? master.volatile "position", dictGet? master.volatile "yaw",
-              dictGet? master.volatile "pitch", dictGet? master.volatile "roll" with
-        | some p, some y, some pt, some r =>
-          ok (w.put (slave.withVol [("position", p), ("yaw", y), ("pitch", pt), ("roll", r)]))
-        | some p, some y, some pt, none =>
-          fail (w.put (slave.withVol [("position", p), ("yaw", y), ("pitch", pt)])) .other
-        | some p, some y, none, _ => fail (w.put (slave.withVol [("position", p), ("yaw", y)])) .other
-        | some p, none, _, _ => fail (w.put (slave.withVol [("position", p)])) .other
-        | none, _, _, _ => fail w .other
-      | _, _ => ok w                                   -- KeyError swallowed
-    else if id1 != 0 then
-      match w.get? id1 with
-      | some e => ok (w.put (setPose e pose))
-      | none => ok w                                   -- KeyError swallowed
-    else ok w
+  | _, .playerPosition id1 id2 pose => stepPlayerPosition w id1 id2 pose
 
 /-- deserialise + process one framed packet, as the body of the `try` in `PlayerBase.play` -/
 def stepNet (jsonOk : Bytes → Bool) (cfg : Config) (w : World) (np : NetPacket) : StepResult :=
